@@ -4,3 +4,12 @@ import DdoModel.Proto
 import DdoModel.Gap
 import DdoModel.Width
 import DdoModel.Engines.Small
+import DdoModel.Cache
+import DdoModel.Dominance
+import DdoModel.Engines.Store
+import DdoModel.Proofs.Cache
+import DdoModel.Proofs.Dominance
+import DdoModel.Props.C10
+import DdoModel.Props.C13
+import DdoModel.Props.C17
+import DdoModel.Props.C18
